@@ -52,14 +52,18 @@ EmitOrder(perm) == IF "HashOrderLeaks" \in Deviations THEN perm ELSE SortSeq(per
 UsedSets == IF Family = "full" THEN {{k1, k2, k3, k4} : k1 \in Vocab, k2 \in Vocab, k3 \in Vocab, k4 \in Vocab} \cup {{}, Vocab}
             ELSE {{k1, k2, k3} : k1 \in Vocab, k2 \in Vocab, k3 \in Vocab} \cup {{}, Vocab}
 Cases ==
-    {[fam |-> "styles", used |-> u \cup x, elems |-> e[1], place |-> e[2], on |-> o[1], root |-> o[2], local |-> l,
+    {[fam |-> "styles", used |-> u \cup x, elems |-> e[1], place |-> e[2], on |-> o[1], root |-> o[2], form |-> o[3], local |-> l,
       rules |-> IF Injected(u, e[1], o[1], o[2]) THEN Rules(u, e[1]) ELSE {},
       defs |-> IF Injected(u, e[1], o[1], o[2]) THEN Defs(u, e[1]) ELSE {}] :
         u \in UsedSets, x \in {{}, NotReserved},
         \* where the classes sit: on the shapes, or spread over the author-written <tspan>
         \* children of a <text> (the design looks at every output element alike)
-        e \in {<<{"rect"}, "shape">>, <<{"rect", "text"}, "shape">>, <<{"rect", "text"}, "tspan">>},
-        o \in {<<TRUE, TRUE>>, <<FALSE, TRUE>>, <<TRUE, FALSE>>}, l \in BOOLEAN}
+        \* ("root": some of the classes sit on the root <svg> itself - an output element like any other)
+        e \in {<<{"rect"}, "shape">>, <<{"rect", "text"}, "shape">>, <<{"rect", "text"}, "tspan">>, <<{"rect"}, "root">>},
+        \* the document is its outermost element: an <svg> inside or after another element is part
+        \* of a fragment, and a fragment gets nothing
+        o \in {<<TRUE, TRUE, "root">>, <<FALSE, TRUE, "root">>, <<TRUE, FALSE, "fragment">>,
+               <<TRUE, FALSE, "svg-in-g">>, <<TRUE, FALSE, "svg-after-shape">>}, l \in BOOLEAN}
 
 Init == c \in Cases
 Next == UNCHANGED c
